@@ -69,7 +69,8 @@ EXTENDS Integers, Sequences, FiniteSets, TLC, Json, Term
 
 CONSTANTS
     Variants,     \* subset of {"gamma", "translated", "generalized", "nonmono"}
-    Mode,         \* "exact": rational optimum computed here; "kkt": instance + terms only
+    Mode,         \* "exact": rational optimum computed here; "kkt": instance + terms only;
+                  \* "seq": exact, and the model object is used on several data sets in sequence (module MdcevSeq)
     Types,        \* [variant |-> sequence of good types]; a good type is a record
                   \*   [k, vq, r, eq, gam, pr, al, mu]:  V = vq + log k,  eps = eq + sigma log r
     MinGoods, MaxGoods,
@@ -93,14 +94,21 @@ HasAlpha(v)  == v # "gamma"
 (***************************************************************************)
 NG      == Len(inst.ts)
 Goods   == 1..NG
-Ty(i)   == Types[inst.v][inst.ts[i]]
+ExactMode == Mode \in {"exact", "seq"}
+\* A good type bundles what belongs to the MODEL OBJECT (gamma, price, alpha) and what the OBSERVATION at hand
+\* contributes (baseline utility V, error draw eps, mu utility).  inst.ts[i] is the type of good i; inst.ds[i] the
+\* type whose DATA good i currently sees: ds = ts while the model is used on the data it was generated with,
+\* another data set (MdcevSeq) replaces ds and nothing else.
+Ty(i)   == IF inst.ds[i] = inst.ts[i] THEN Types[inst.v][inst.ts[i]]
+           ELSE LET d == Types[inst.v][inst.ds[i]] IN
+                [Types[inst.v][inst.ts[i]] EXCEPT !.k = d.k, !.vq = d.vq, !.r = d.r, !.eq = d.eq, !.mu = d.mu]
 IsOut(i) == i = inst.out
 Sigma   == IF IsZero(inst.sc) THEN One ELSE inst.sc
 Price(i) == IF inst.up THEN Ty(i).pr ELSE One
 Gam(i)  == Ty(i).gam
 Alpha(i) == Ty(i).al
 \* mu of the non-monotonic profile: in the exact mode it is chosen so that mu + eps/sigma = m for every good
-MuOf(i) == IF Mode = "exact" /\ inst.v = "nonmono" THEN QSub(inst.m, QDiv(Ty(i).eq, Sigma)) ELSE Ty(i).mu
+MuOf(i) == IF ExactMode /\ inst.v = "nonmono" THEN QSub(inst.m, QDiv(Ty(i).eq, Sigma)) ELSE Ty(i).mu
 
 \* --- terms (for the driver): baseline utility, error draw, psi, m
 X == App("var", <<Zero>>)      \* the expenditure
@@ -246,7 +254,7 @@ SeqToSet(s) == {s[i] : i \in 1..Len(s)}
 Perms(S) == {o \in [1..Cardinality(S) -> S] : \A a, b \in 1..Cardinality(S) : a # b => o[a] # o[b]}
 
 Init == /\ stage = "goods"
-        /\ inst \in {[v |-> v, ts |-> << >>, out |-> 0, up |-> FALSE, sc |-> Zero, m |-> Zero, B |-> One] :
+        /\ inst \in {[v |-> v, ts |-> << >>, ds |-> << >>, out |-> 0, up |-> FALSE, sc |-> Zero, m |-> Zero, B |-> One] :
                      v \in Variants}
         /\ order = << >> /\ chosen = {} /\ next = 1 /\ sol = << >>
 
@@ -255,7 +263,7 @@ AddGood(t) ==
     /\ stage = "goods" /\ Len(inst.ts) < MaxGoods
     /\ t \in 1..Len(Types[inst.v])
     /\ IF Len(inst.ts) = 0 THEN TRUE ELSE t >= Last(inst.ts)
-    /\ inst' = [inst EXCEPT !.ts = Append(@, t)]
+    /\ inst' = [inst EXCEPT !.ts = Append(@, t), !.ds = Append(@, t)]
     /\ UNCHANGED <<stage, order, chosen, next, sol>>
 
 Configure(o, up, sc, m, b) ==
@@ -264,10 +272,10 @@ Configure(o, up, sc, m, b) ==
     /\ up \in (IF HasPrices(inst.v) THEN BOOLEAN ELSE {FALSE})
     /\ up \/ \A i \in Goods : IsOne(Ty(i).pr)              \* without prices every price is 1
     /\ sc \in Scales
-    /\ m \in (IF Mode = "exact" /\ inst.v = "nonmono" THEN Ms ELSE {Zero})
+    /\ m \in (IF ExactMode /\ inst.v = "nonmono" THEN Ms ELSE {Zero})
     /\ b \in Budgets
     /\ inst' = [inst EXCEPT !.out = o, !.up = up, !.sc = sc, !.m = m, !.B = b]
-    /\ stage' = IF Mode = "exact" THEN "order" ELSE "emit"
+    /\ stage' = IF Mode = "exact" THEN "order" ELSE IF Mode = "seq" THEN "plan" ELSE "emit"
     /\ UNCHANGED <<order, chosen, next, sol>>
 
 (***************************************************************************)
@@ -343,6 +351,7 @@ InverseInverts ==
               QSign(ExpAt(i, s)) > 0 => QEq(MUq(i, ExpAt(i, s)), QInv(s))
 
 StagesOK == stage \in {"goods", "order", "trying", "solving", "solved", "emit"}
+                     \cup (IF Mode = "seq" THEN {"plan", "idle", "reused", "seqdone"} ELSE {})
 
 (***************************************************************************)
 (* Emission: one JSON line per finished instance.                          *)
